@@ -558,7 +558,9 @@ def _run(sc, tape):
                 continue
             if a is None:
                 raise Bad('tile-destroyed', '%s: tile %s (generation %s) is gone from the cache' % (what, c, b[0]))
-            if not any((a[0] is None or e['gen'] & 255 == a[0]) and U.covers(e['bbox'], c) for e in ok_calls):
+            # (any successful fetch so far counts: a worker thread of an earlier request that was aborted by a failing sibling
+            # goes on in the background and may fetch and store its meta tile while a later request is served)
+            if not any((a[0] is None or e['gen'] & 255 == a[0]) and U.covers(e['bbox'], c) for e in shared['log'] if e['ok']):
                 raise Bad('unattributable-rewrite', '%s: tile %s changed from %r to %r without a successful fetch covering it' % (
                     what, c, b, a))
             if a[0] is not None and (b is None or a[0] != b[0]) and not (int(t_begin / (sc.get('mtime_res') or 1.0)) * (sc.get('mtime_res') or 1.0) <= a[1] <= clock.now + 1e-6):
